@@ -29,6 +29,7 @@ fn state(vm: &mut Vm<'static, ()>) -> St {
 /// collection threshold raised to an arbitrary value by earlier collections) clear() restores
 /// exactly the state of a newly created VM with the same limits
 pub fn clear_equals_fresh<S: Src>(s: &mut S) {
+    cao_lang::verif_hooks::set_skip_error_trace(true);
     let mut fresh = Vm::verif_new_small((), 1 << 12, 8, 4).unwrap();
     let f = state(&mut fresh);
     let mut vm = Vm::verif_new_small((), 1 << 12, 8, 4).unwrap();
@@ -57,6 +58,7 @@ pub fn clear_equals_fresh<S: Src>(s: &mut S) {
 
 /// running a balanced program repeatedly without clear does not consume call frames
 pub fn run_does_not_leak_frames<S: Src, const FAILS: bool>(s: &mut S) {
+    cao_lang::verif_hooks::set_skip_error_trace(true);
     let mut vm = Vm::verif_new_small((), 1 << 12, 8, 2).unwrap();
     let mut prog = CaoCompiledProgram::default();
     let x = s.i64();
